@@ -80,8 +80,31 @@ impl Backend {
                 continue;
             }
 
+            // A fixture's own same-named parameter (`def fx(fx)`) denotes the fixture it
+            // overrides, not the per-file entry: resolve it exactly like go-to-definition.
+            let is_self_param = self
+                .fixture_db
+                .get_definition_at_line(&file_path, usage.line, &usage.name)
+                .is_some();
+            let overridden = if is_self_param {
+                self.fixture_db
+                    .find_fixture_definition(
+                        &file_path,
+                        Self::internal_line_to_lsp(usage.line),
+                        usage.start_char as u32,
+                    )
+                    .and_then(|def| def.return_type)
+            } else {
+                None
+            };
+            let return_type = if is_self_param {
+                overridden.as_deref()
+            } else {
+                fixture_map.get(usage.name.as_str()).copied()
+            };
+
             // Look up return type from pre-computed map
-            if let Some(&return_type) = fixture_map.get(usage.name.as_str()) {
+            if let Some(return_type) = return_type {
                 // Check if this parameter already has a type annotation
                 // by looking at the text after the parameter name in the current buffer
                 if parameter_has_annotation(&lines, usage.line, usage.end_char) {
